@@ -22,12 +22,16 @@ pub static DEF: PropDef = PropDef {
   rule: "Per case a schema over the shared feature set and up to 8 JSON-model values are generated; every value is validated as JSON text and as CBOR. Invariants on each result: Err(Validation(list)) has a non-empty list; every JSON error location is \"\" or a slash path for which some segmentation into existing object keys / array indices of the validated document exists. Determinism: the full result (verdict + ordered list of (location, reason)) of each call is compared between (a) two sequential repetitions, (b) the call repeated after 40 unrelated validation calls on other schemas and documents, (c) the same calls made concurrently from 8 threads released together by a barrier (each thread runs all calls of the case three times; per-call begin/end times are recorded and the number of overlapping call pairs is reported). Error kinds: a malformed schema (single-edit mutants that the parser rejects), a malformed document (truncated / corrupted JSON text, truncated CBOR) and a well-formed non-conforming document must come back as three different error kinds. Non-trivial = a rejecting call with >= 1 error compared across all three repetition modes; distinct by (schema, document, validator).",
   assumptions: &[
     "thread overlap is measured with a monotonic clock; a case whose threads did not overlap is counted as not-overlapped (the run as a whole needs overlapping pairs)",
-    "the thorough tier additionally runs the concurrent phase under ThreadSanitizer when the nightly sanitizer build is available (see DESIGN.md); the quick tier does not",
+    "the thorough tier additionally runs the first 640 cases (all repetition modes, 8 concurrent threads per case) in a ThreadSanitizer build of the harness with an instrumented standard library; a report is a violation, a failed sanitizer build is inconclusive; the quick tier does not",
   ],
   required,
-  post: None,
+  post: Some(post),
   shards: default_shards,
 };
+
+fn post(sum: &mut Summary, tier: Tier, seed: u64) {
+  crate::san::tsan_phase(&DEF, sum, tier, seed, 640);
+}
 
 fn cases(t: Tier) -> u64 {
   match t {
